@@ -54,6 +54,8 @@ pub fn gen_ctx(u: &mut Chooser) -> Vec<(String, V)> {
         ("x".to_string(), V::Int(1000 + u.range(0, 9))),
         ("y".to_string(), V::List(vec![V::Int(77)])),
         ("any".to_string(), gen_value(u, 2, ValOpts::CORE)),
+        // a collection holding NaN: equal to nothing, itself and its own clones included
+        ("nl".to_string(), V::List(vec![V::f(f64::NAN), V::Int(1)])),
     ]
 }
 
@@ -66,7 +68,7 @@ pub fn gen_prog(u: &mut Chooser, ctx: &[(String, V)]) -> E {
     let idx = |a: E, i: i64| E::Index(b(a), b(E::Lit(V::Int(i))));
     let mac = |m: Mac, r: E, body: E| E::Macro(m, b(r), "x".into(), vec![body]);
     let x = || E::var("x");
-    match u.below(44) {
+    match u.below(48) {
         0 => add(l(u), lit_l(u)),
         1 => add(l(u), l(u)),
         2 => {
@@ -127,6 +129,11 @@ pub fn gen_prog(u: &mut Chooser, ctx: &[(String, V)]) -> E {
         40 => E::List(vec![E::call("late", vec![]), E::call("late", vec![])]),
         41 => E::Select(b(E::var("m0")), "late".into()),
         42 => E::Cond(b(E::var("b0")), b(E::call("late", vec![])), b(E::Lit(V::Int(0)))),
+        // the same shared value on both sides, one level down
+        43 => E::bin(Op::Eq, E::List(vec![E::var("nl")]), E::List(vec![E::var("nl")])),
+        44 => E::bin(Op::Eq, E::Map(vec![(E::Lit(V::s("k")), E::var("nl"))]), E::Map(vec![(E::Lit(V::s("k")), E::var("nl"))])),
+        45 => E::bin(Op::In, E::List(vec![E::var("nl")]), E::List(vec![E::List(vec![E::var("nl")])])),
+        46 => E::List(vec![E::bin(Op::Eq, E::var("nl"), E::var("nl")), E::mcall(E::List(vec![E::List(vec![E::var("nl")])]), "contains", vec![E::List(vec![E::var("nl")])])]),
         _ => {
             // a random typed program over the same context
             let vars: Vec<Var> = ctx
@@ -153,7 +160,17 @@ pub fn gen_prog(u: &mut Chooser, ctx: &[(String, V)]) -> E {
 pub fn gen_keyed_prog(u: &mut Chooser) -> E {
     let word = |u: &mut Chooser| -> String { (0..u.below(4)).map(|_| *u.pick(&['a', 'b', 'c', ' '])).collect() };
     let s = |x: String| E::Lit(V::Str(x));
-    match u.below(8) {
+    match u.below(10) {
+        // string literals that differ only in the amount and kind of white space inside them
+        8 | 9 => {
+            let ws = |u: &mut Chooser| u.pick(&[" ", "  ", "\t", " \t", "   ", "\u{a0}"]).to_string();
+            let t = format!("a{}b{}c", ws(u), ws(u));
+            if u.flip() {
+                E::call("size", vec![s(t)])
+            } else {
+                E::bin(Op::Add, s(t), E::var("w0"))
+            }
+        }
         0 | 1 | 2 => {
             let pat = format!("{}{}{}", if u.flip() { "^" } else { "" }, word(u), if u.flip() { "$" } else { "" });
             let subject = if u.flip() { s(word(u)) } else { E::var("w0") };
